@@ -759,7 +759,12 @@ pub struct TlsRun {
 }
 
 pub fn connector_of(cfg: &ClientCfg) -> Connector {
-    let mut c = Connector::new()
+    reconfigure(Connector::new(), cfg)
+}
+
+/// apply every setting of `cfg` to an existing Connector (a password hash, once set, cannot be unset through the API)
+pub fn reconfigure(c: Connector, cfg: &ClientCfg) -> Connector {
+    let mut c = c
         .screen(cfg.width, cfg.height)
         .credentials(cfg.domain.clone(), cfg.user.clone(), cfg.password.clone())
         .set_restricted_admin_mode(cfg.restricted_admin)
@@ -777,15 +782,20 @@ pub fn connector_of(cfg: &ClientCfg) -> Connector {
 
 /// like run_tls, handing every bitmap event to `on_bitmap`
 pub fn run_tls_with_events(cfg: &ClientCfg, scfg: &TlsServerCfg, reads: usize, do_shutdown: bool, on_bitmap: &mut dyn FnMut(rdp::core::event::BitmapEvent)) -> TlsRun {
-    run_tls_inner(cfg, scfg, reads, do_shutdown, &mut |_| (), Some(on_bitmap))
+    run_tls_inner(cfg, scfg, reads, do_shutdown, &mut |_| (), Some(on_bitmap), None)
 }
 
 /// One whole connection through the public entry point. `reads` = number of RdpClient::read calls to make after connect.
 pub fn run_tls(cfg: &ClientCfg, scfg: &TlsServerCfg, reads: usize, do_shutdown: bool, extra: &mut dyn FnMut(&mut RdpClient<Tee>)) -> TlsRun {
-    run_tls_inner(cfg, scfg, reads, do_shutdown, extra, None)
+    run_tls_inner(cfg, scfg, reads, do_shutdown, extra, None, None)
 }
 
-fn run_tls_inner(cfg: &ClientCfg, scfg: &TlsServerCfg, reads: usize, do_shutdown: bool, extra: &mut dyn FnMut(&mut RdpClient<Tee>), mut on_bitmap: Option<&mut dyn FnMut(rdp::core::event::BitmapEvent)>) -> TlsRun {
+/// like run_tls with a Connector object the caller owns (and may have used for earlier connections)
+pub fn run_tls_with_connector(connector: &mut Connector, cfg: &ClientCfg, scfg: &TlsServerCfg, reads: usize, do_shutdown: bool) -> TlsRun {
+    run_tls_inner(cfg, scfg, reads, do_shutdown, &mut |_| (), None, Some(connector))
+}
+
+fn run_tls_inner(cfg: &ClientCfg, scfg: &TlsServerCfg, reads: usize, do_shutdown: bool, extra: &mut dyn FnMut(&mut RdpClient<Tee>), mut on_bitmap: Option<&mut dyn FnMut(rdp::core::event::BitmapEvent)>, given: Option<&mut Connector>) -> TlsRun {
     let (a, b) = UnixStream::pair().expect("socketpair");
     let _ = a.set_read_timeout(Some(Duration::from_secs(TIMEOUT_S)));
     let _ = a.set_write_timeout(Some(Duration::from_secs(TIMEOUT_S)));
@@ -793,7 +803,11 @@ fn run_tls_inner(cfg: &ClientCfg, scfg: &TlsServerCfg, reads: usize, do_shutdown
     let th = std::thread::Builder::new().stack_size(1 << 20).spawn(move || serve(b, scfg2)).expect("spawn");
     let log = Arc::new(Mutex::new(Vec::new()));
     let tee = Tee { inner: a, log: log.clone() };
-    let mut connector = connector_of(cfg);
+    let mut own = connector_of(cfg);
+    let connector: &mut Connector = match given {
+        Some(c) => c,
+        None => &mut own,
+    };
     let (r, _) = call(|| connector.connect(tee));
     let mut run_reads = Vec::new();
     let mut shutdown = None;
